@@ -304,6 +304,11 @@ def _to_zero(data, pos, mask):
     return bytes(a ^ b for a, b in zip(data[pos : pos + 4], bytes.fromhex(mask))) == bytes(4)
 
 
+def forges_version_negotiation(data):
+    """the (altered) datagram starts with a long-header packet whose Version field is 0"""
+    return len(data) >= 5 and data[0] & 0x80 and data[1:5] == bytes(4)
+
+
 def version_alterations(data):
     """for every long-header packet: the Version field turned into 0 (what a Version Negotiation packet carries), into the other QUIC version and into
     an unknown one -> [(position, hex mask)]"""
@@ -384,6 +389,8 @@ def tamper_task(ctx, config, thorough, part, nparts):
         first_s2c = min(kk for kk, dd, _ in base.log if dd == "s2c")
         todo.extend((p_, m_) for p_, m_ in version_alterations(data) if not (direction == "s2c" and k == first_s2c and _to_zero(data, p_, m_)))
         for pos, mask in todo:
+            if direction == "s2c" and k == first_s2c and forges_version_negotiation(alter_fn(pos, mask)(data)):
+                continue  # (see above: applies to single-bit alterations of the Version field too)
             for mask in [mask]:
                 n += 1
                 if n % nparts != part:
